@@ -55,7 +55,7 @@ var tunables = map[string]bool{"BlockCacheSize": true, "bucketExtUTXOCacheSize":
 // functions whose every statement gets a yield point (focus list, DESIGN §2.2 T5).
 var focusFuncs = map[string]bool{
 	"SpinLock.TryLock": true, "SpinLock.Unlock": true, "State.doTxSync": true, "UtxoVM.tryLockKey": true,
-	"UtxoVM.SelectUtxos": true, "UtxoVM.UnlockKey": true, "UtxoVM.clearExpiredLocks": true,
+	"UtxoVM.SelectUtxos": true, "UtxoVM.SelectUtxosBySize": true, "UtxoVM.UnlockKey": true, "UtxoVM.clearExpiredLocks": true,
 	"dispatcher.Register": true, "dispatcher.UnRegister": true, "dispatcher.Dispatch": true, "dispatcher.IsHandled": true, "dispatcher.MaskHandled": true,
 	"Smr.handleReceivedProposal": true, "Smr.handleReceivedVoteMsg": true, "Smr.UpdateQcStatus": true, "Smr.UpdateJustifyQcStatus": true,
 	"QCPendingTree.updateHighQC": true, "QCPendingTree.updateQcStatus": true, "QCPendingTree.insert": true, "QCPendingTree.insertOrphan": true,
